@@ -125,3 +125,8 @@ def r5(cx):
 @rule("C03", "C03.R6", "a whole batch lands in one memtable / segment pair")
 def r6(cx):
     rule_rotate_not_in_apply(cx)
+
+
+@rule("C03", "C03.R7", "only the last WAL segment can be torn: rotation seals the outgoing segment")
+def r7(cx):
+    rule_rotation_seals_segment(cx)
